@@ -22,7 +22,7 @@ pub fn prop() -> Prop {
 fn spec() -> Spec {
     Spec {
         kinds: vec![Kind { name: "constrained", quick: 1_500_000, thorough: 40_000_000, serial: false }],
-        rule: "each case = non-degenerate robot (dof 5/6) inside a wrapper stack of depth 0..3 drawn from Tool/Base/Frame/Parallelogram; the same stack is built twice, with and without joint limits; limits per joint from the classes narrow-window-around-a-real-solution / wide / wrapping (three kinds) / from==to / span>=2pi / far out, weights 0, 1, random; all four entry points; constrained answers must be compliant (reference arc oracle, in the wrapped robot's coordinates) and every compliant unconstrained answer must be present; constraints() of the stack must be the wrapped robot's; non-trivial = the unconstrained call returned >= 1 answer and at least one joint is constrained; distinct = hash(robot, stack, q, limits, entry) Workload additions: limits installed through new / update_range histories / from_degrees; from == to with signed zeros; a tenth of the poses exactly wrist-singular with the generating vector as previous; dof-5 robots with an unblocked sixth sign.",
+        rule: "each case = non-degenerate robot (dof 5/6) inside a wrapper stack of depth 0..3 drawn from Tool/Base/Frame/Parallelogram; the same stack is built twice, with and without joint limits; limits per joint from the classes narrow-window-around-a-real-solution / wide / wrapping (three kinds) / from==to / span>=2pi / far out, weights 0, 1, random; all four entry points; constrained answers must be compliant (reference arc oracle, in the wrapped robot's coordinates) and every compliant unconstrained answer must be present; constraints() of the stack must be the wrapped robot's; non-trivial = the unconstrained call returned >= 1 answer and at least one joint is constrained; distinct = hash(robot, stack, q, limits, entry) Workload additions: limits installed through new / update_range histories / from_degrees; from == to with signed zeros; a tenth of the poses exactly wrist-singular with the generating vector as previous; dof-5 robots with an unblocked sixth sign. Rounds 7-9: a joint all but locked with the solution a hair outside; tiny forbidden gaps; infinite bounds (with explicit previous vectors only); singular poses with a previous vector off the arm.",
         assumptions: vec![
             "Parallelogram: limits live in the wrapped robot's coordinates, so answers are mapped back (coupled -= scaling*driven) before the arc test; this is the reading under which the statement's two halves agree with 'the limits a wrapper reports are those of the robot it wraps'",
             "answers within 1e-9 rad of an arc end are inconclusive",
@@ -68,11 +68,18 @@ fn run_case(_kind: &str, idx: u64, rng: &mut Rng, mon: &mut Mon, _tier: Tier) {
     let free = build(Arc::new(OPWKinematics::new(to_params(&rp))), &layers);
     let e = ENTRIES[rng.usize(4)];
     let j6 = rng.range(-PI, PI);
-    let prev = match if singular_pose { 1 } else { rng.usize(4) } {
+    let mut prev = match if singular_pose { 1 } else { rng.usize(4) } {
         0 => CONSTRAINT_CENTERED,
         1 => q,
         _ => joints_uniform(rng, 2.0 * PI),
     };
+    // (half of the singular cases: the previous vector itself is far outside whatever window J1, J2 or J3 will get -
+    // a previous vector is a hint, not a solution; what is recovered from it does not depend on the limits)
+    if singular_pose && rng.bool(0.5) {
+        prev[rng.usize(3)] += rng.sign() * rng.range(0.6, 1.5);
+        mon.count("wrist_singular_poses_with_previous_off_the_arm");
+    }
+    let prev = prev;
     let sentinel = prev[0].is_nan();
     let unconstrained = match call(free.as_ref(), e, &pose, &prev, j6) {
         Ok(s) => s,
